@@ -151,105 +151,107 @@ func runC16(c *Ctx) {
 	checkNest("TracerouteRun", "Destination", "result.TracerouteDestination")
 	checkNest("E2eProbe", "RTT", "result.E2eProbeRTT")
 
-	// R16.2
-	uu := c.P.Func("result.newBase64UUID")
-	if uu == nil {
-		R.Fail("R16.2", "result.newBase64UUID#anchor", 0, "", "anchor result.newBase64UUID no longer resolves")
-	} else {
-		rps, _ := core.ReturnPaths(c.P, uu, 100)
-		ok := len(rps) > 0
-		for _, rp := range rps {
-			if !strings.Contains(rp.Results[0].String(), "uuid.New()") {
-				ok = false
-			}
-		}
-		R.Check(ok, "R16.2", "result.newBase64UUID#fresh", uu.Pos(), core.FuncName(uu), "the identifier derives from uuid.New()", "the identifier helper no longer derives its value from uuid.New()")
-	}
-	nstore := 0
-	for _, name := range []string{"(*result.Results).normalizeTestRunID", "(*result.Results).normalizeTracerouteRuns"} {
-		f := c.P.Func(name)
-		if f == nil {
-			R.Fail("R16.2", name+"#anchor", 0, "", "anchor "+name+" no longer resolves")
-			continue
-		}
-		for _, b := range f.Blocks {
-			for _, in := range b.Instrs {
-				st, ok := in.(*ssa.Store)
-				if !ok {
-					continue
-				}
-				fa, ok := st.Addr.(*ssa.FieldAddr)
-				if !ok {
-					continue
-				}
-				fname := fa.X.Type().Underlying().(*types.Pointer).Elem().Underlying().(*types.Struct).Field(fa.Field).Name()
-				if fname != "TestRunID" && fname != "RunID" {
-					continue
-				}
-				nstore++
-				call, isCall := st.Val.(*ssa.Call)
-				fresh := isCall && calleeIs(call, "result.newBase64UUID")
-				inLoopOK := true
-				if fname == "RunID" {
-					loop := innermostLoop(f, b)
-					inLoopOK = loop != nil && isCall && loop[call.Block()]
-					// indexed by the loop variable
-					if ia, ok := fa.X.(*ssa.IndexAddr); !ok || loop == nil {
-						inLoopOK = false
-					} else if _, isPhi := ia.Index.(*ssa.Phi); !isPhi {
-						if bo, ok := ia.Index.(*ssa.BinOp); !ok || bo.Op.String() != "+" {
-							inLoopOK = false
-						}
-					}
-				}
-				R.Check(fresh && inLoopOK, "R16.2", fmt.Sprintf("%s#%s", name, fname), st.Pos(), name, fname+" is assigned a newBase64UUID() evaluated per document / per run", fname+" is not assigned from a newBase64UUID() call inside the per-run loop: identifiers would repeat")
-			}
-		}
-	}
-	R.Floor("R16.2:id-stores", nstore, 2)
-	// no other function writes the identifiers
-	other := 0
-	for _, f := range c.P.ModFuncs {
-		n := core.FuncName(f)
-		if strings.HasSuffix(n, "normalizeTestRunID") || strings.HasSuffix(n, "normalizeTracerouteRuns") || strings.Contains(n, "Mock") {
-			continue
-		}
-		for _, b := range f.Blocks {
-			for _, in := range b.Instrs {
-				if st, ok := in.(*ssa.Store); ok {
-					if fa, ok := st.Addr.(*ssa.FieldAddr); ok && isNamedStruct(fa.X.Type(), "result") {
-						fname := fa.X.Type().Underlying().(*types.Pointer).Elem().Underlying().(*types.Struct).Field(fa.Field).Name()
-						if fname == "TestRunID" || fname == "RunID" {
-							other++
-							R.Fail("R16.2", n+"#"+fname, st.Pos(), n, fname+" is also written outside the normalisation pass")
-						}
-					}
-				}
-			}
-		}
-	}
+	// R16.2 – by role, not by name: a fresh-id function is a parameterless string function of package result whose every
+	// result derives from uuid.New(); the identifiers are written only inside Normalize's call tree, from such a call, the run id
+	// inside the per-run loop; Normalize is straight-line and its call tree writes every derived field of the document.
 	nz := c.P.Func("(*result.Results).Normalize")
 	if nz == nil {
 		R.Fail("R16.2", "result.Normalize#anchor", 0, "", "anchor (*result.Results).Normalize no longer resolves")
 	} else {
-		want := map[string]bool{"normalizeTestRunID": false, "normalizeTracerouteRuns": false, "normalizeTracerouteHops": false, "normalizeTracerouteHopsCount": false, "normalizeE2eProbe": false}
-		straight := len(nz.Blocks) == 1
-		for _, b := range nz.Blocks {
-			for _, in := range b.Instrs {
-				if call, ok := in.(*ssa.Call); ok && call.Common().StaticCallee() != nil {
-					if _, ok := want[call.Common().StaticCallee().Name()]; ok && len(call.Common().Args) > 0 && call.Common().Args[0] == ssa.Value(nz.Params[0]) {
-						want[call.Common().StaticCallee().Name()] = true
+		inPass := map[*ssa.Function]bool{}
+		for _, g := range ModReach(c.P, nz) {
+			inPass[g] = true
+		}
+		freshMemo := map[*ssa.Function]bool{}
+		freshFn := func(h *ssa.Function) bool {
+			if h == nil || !core.InModule(h) || len(h.Blocks) == 0 || len(h.Params) != 0 {
+				return false
+			}
+			if v, ok := freshMemo[h]; ok {
+				return v
+			}
+			ips := InlinedPaths(c.P, h, inlineOpts{pkg: core.FuncPkg(h)})
+			ok := len(ips) > 0
+			for _, ip := range ips {
+				if len(ip.Results) != 1 || !strings.Contains(ip.Results[0].String(), "uuid.New()") {
+					ok = false
+				}
+			}
+			freshMemo[h] = ok
+			return ok
+		}
+		nstore, nfresh := 0, 0
+		written := map[string]bool{}
+		for _, f := range c.P.ModFuncs {
+			n := core.FuncName(f)
+			if strings.Contains(n, "Mock") || strings.HasPrefix(n, "testutils") {
+				continue
+			}
+			for _, b := range f.Blocks {
+				for _, in := range b.Instrs {
+					st, ok := in.(*ssa.Store)
+					if !ok {
+						continue
 					}
+					fa, ok := st.Addr.(*ssa.FieldAddr)
+					if !ok || !isNamedStruct(fa.X.Type(), "result") {
+						continue
+					}
+					fname := core.FieldName(fa)
+					if inPass[f] {
+						written[fname] = true
+					}
+					if fname != "TestRunID" && fname != "RunID" {
+						continue
+					}
+					nstore++
+					if !inPass[f] {
+						R.Fail("R16.2", n+"#"+fname, st.Pos(), n, fname+" is also written outside the normalisation pass")
+						continue
+					}
+					call, isCall := st.Val.(*ssa.Call)
+					fresh := isCall && freshFn(call.Common().StaticCallee())
+					if fresh {
+						nfresh++
+					}
+					inLoopOK := true
+					if fname == "RunID" {
+						loop := innermostLoop(f, b)
+						inLoopOK = loop != nil && isCall && loop[call.Block()]
+						// the written run is the loop's own element (index expression on the loop variable, or a per-iteration pointer)
+						if loop != nil {
+							switch x := fa.X.(type) {
+							case *ssa.IndexAddr:
+								if _, isPhi := x.Index.(*ssa.Phi); !isPhi {
+									if bo, ok := x.Index.(*ssa.BinOp); !ok || bo.Op.String() != "+" {
+										inLoopOK = false
+									}
+								}
+							default:
+								if vi, ok := fa.X.(ssa.Instruction); !ok || !loop[vi.Block()] {
+									inLoopOK = false
+								}
+							}
+						}
+					}
+					R.Check(fresh && inLoopOK, "R16.2", fmt.Sprintf("%s#%s", n, fname), st.Pos(), n, fname+" is assigned a fresh identifier (uuid.New()) evaluated per document / per run", fname+" is not assigned from a uuid.New()-based helper call inside the per-run loop: identifiers would repeat")
 				}
 			}
 		}
-		all := true
-		for _, v := range want {
-			if !v {
-				all = false
+		R.Floor("R16.2:id-stores", nstore, 2)
+		R.Floor("R16.2:fresh-id-calls", nfresh, 2)
+		// every derived part of the document is written somewhere in Normalize's tree, and Normalize runs its passes unconditionally
+		var missing []string
+		for _, fld := range []string{"TestRunID", "RunID", "Reachable", "PacketsSent", "PacketsReceived", "Jitter"} {
+			if !written[fld] {
+				missing = append(missing, fld)
 			}
 		}
-		R.Check(all && straight, "R16.2", "result.Normalize#passes", nz.Pos(), core.FuncName(nz), "all five passes run unconditionally on the receiver", fmt.Sprintf("Normalize no longer runs all five passes unconditionally: %v (straight-line=%v)", want, straight))
+		if !(written["HopCount"] || (written["Avg"] && written["Min"] && written["Max"])) {
+			missing = append(missing, "HopCount")
+		}
+		straight := len(nz.Blocks) == 1
+		R.Check(len(missing) == 0 && straight, "R16.2", "result.Normalize#passes", nz.Pos(), core.FuncName(nz), "Normalize runs its passes unconditionally and they write every derived field", fmt.Sprintf("Normalize no longer derives %v (straight-line=%v)", missing, straight))
 	}
 	// R16.3
 	nreach := 0
@@ -332,59 +334,37 @@ func checkE2eProvenance(c *Ctx) {
 		fa, ok := ld.X.(*ssa.FieldAddr)
 		return ok && core.FieldName(fa) == "RTTs"
 	}
-	// the positive-sample slice S and the counter that grows with it
-	var S, C *ssa.Phi
-	for _, b := range f.Blocks {
-		for _, in := range b.Instrs {
-			phi, ok := in.(*ssa.Phi)
-			if !ok {
-				continue
-			}
-			for _, e := range phi.Edges {
-				call, ok := e.(*ssa.Call)
-				if !ok {
+	// the positive-sample slice S and the counter that grows with it: built here, or by a filter helper applied to the samples
+	var S ssa.Value
+	Sphi, C := positiveFilter(f, isRTTs)
+	if Sphi != nil {
+		S = Sphi
+	} else {
+		for _, b := range f.Blocks {
+			for _, in := range b.Instrs {
+				call, ok := in.(*ssa.Call)
+				if !ok || call.Common().StaticCallee() == nil || len(call.Common().Args) == 0 {
 					continue
 				}
-				bi, ok := call.Common().Value.(*ssa.Builtin)
-				if !ok || bi.Name() != "append" || call.Common().Args[0] != ssa.Value(phi) {
+				h := call.Common().StaticCallee()
+				if !core.InModule(h) || len(h.Blocks) == 0 || len(h.Params) == 0 {
 					continue
 				}
-				// guard: the append's block is the true successor of `x > 0` with x an element of RTTs, and x is what is appended
-				ab := call.Block()
-				if len(ab.Preds) != 1 {
-					continue
-				}
-				iff, ok := ab.Preds[0].Instrs[len(ab.Preds[0].Instrs)-1].(*ssa.If)
-				if !ok || ab.Preds[0].Succs[0] != ab {
-					continue
-				}
-				bo, ok := iff.Cond.(*ssa.BinOp)
-				if !ok || bo.Op.String() != ">" {
-					continue
-				}
-				if cst, ok := bo.Y.(*ssa.Const); !ok || cst.Value == nil || cst.Float64() != 0 {
-					continue
-				}
-				el, ok := bo.X.(*ssa.UnOp)
-				if !ok {
-					continue
-				}
-				ia, ok := el.X.(*ssa.IndexAddr)
-				if !ok || !isRTTs(ia.X) {
-					continue
-				}
-				S = phi
-				// the counter incremented in the same block
-				for _, in2 := range phi.Block().Instrs {
-					p2, ok := in2.(*ssa.Phi)
-					if !ok || p2 == phi {
+				for ai, a := range call.Common().Args {
+					if !isRTTs(a) || ai >= len(h.Params) {
 						continue
 					}
-					for _, e2 := range p2.Edges {
-						if inc, ok := e2.(*ssa.BinOp); ok && inc.Op.String() == "+" && inc.X == ssa.Value(p2) && inc.Block() == ab {
-							if cst, ok := inc.Y.(*ssa.Const); ok && cst.Int64() == 1 {
-								C = p2
+					prm := h.Params[ai]
+					if hp, _ := positiveFilter(h, func(v ssa.Value) bool { return v == ssa.Value(prm) }); hp != nil {
+						// the helper returns exactly that slice
+						returnsIt := false
+						for _, hb := range h.Blocks {
+							if ret, ok := hb.Instrs[len(hb.Instrs)-1].(*ssa.Return); ok && len(ret.Results) == 1 && ret.Results[0] == ssa.Value(hp) {
+								returnsIt = true
 							}
+						}
+						if returnsIt {
+							S = call
 						}
 					}
 				}
@@ -439,10 +419,22 @@ func checkE2eProvenance(c *Ctx) {
 				continue
 			}
 			name := core.FieldName(fa)
-			if name != "Min" && name != "Max" && name != "Avg" && name != "Jitter" {
+			whole := false
+			if name == "RTT" {
+				// min / avg / max assigned in one go as a struct value (a helper that summarises the samples)
+				if pt, ok := fa.Type().Underlying().(*types.Pointer); ok {
+					if _, isStruct := pt.Elem().Underlying().(*types.Struct); isStruct {
+						whole = true
+					}
+				}
+			}
+			if name != "Min" && name != "Max" && name != "Avg" && name != "Jitter" && !whole {
 				continue
 			}
 			nstat++
+			if whole {
+				nstat += 2
+			}
 			seenS, seenRaw := false, false
 			post := map[string]bool{}
 			seen := map[ssa.Value]bool{}
@@ -514,8 +506,15 @@ func checkE2eProvenance(c *Ctx) {
 				pl = append(pl, k)
 			}
 			sort.Strings(pl)
-			postOf[name] = strings.Join(pl, ",")
-			postPos[name] = st.Pos()
+			if whole {
+				for _, nm := range []string{"Min", "Max", "Avg"} {
+					postOf[nm] = strings.Join(pl, ",")
+					postPos[nm] = st.Pos()
+				}
+			} else {
+				postOf[name] = strings.Join(pl, ",")
+				postPos[name] = st.Pos()
+			}
 		}
 	}
 	// the property orders these statistics against each other (min <= avg <= max, jitter <= max-min): a scalar post-processing
@@ -566,4 +565,72 @@ func hopIndex(t *core.Term) (string, string) {
 	}
 	// outermost index first in walk order: Hops[j] then Runs[i]
 	return idx[len(idx)-1], idx[0]
+}
+
+func loopOfHeaderOrNil(h *ssa.BasicBlock) map[*ssa.BasicBlock]bool {
+	if h == nil {
+		return nil
+	}
+	return loopOfHeader(h)
+}
+
+// positiveFilter finds, in g, the slice that collects exactly the raw samples x with x > 0 (a loop-carried phi that grows by
+// append(phi, x) in the true branch of `x > 0`, x an element of the raw list) and the counter incremented in the same branch.
+func positiveFilter(g *ssa.Function, isRaw func(ssa.Value) bool) (S, C *ssa.Phi) {
+	for _, b := range g.Blocks {
+		for _, in := range b.Instrs {
+			phi, ok := in.(*ssa.Phi)
+			if !ok {
+				continue
+			}
+			for _, e := range phi.Edges {
+				call, ok := e.(*ssa.Call)
+				if !ok {
+					continue
+				}
+				bi, ok := call.Common().Value.(*ssa.Builtin)
+				if !ok || bi.Name() != "append" || call.Common().Args[0] != ssa.Value(phi) {
+					continue
+				}
+				ab := call.Block()
+				if len(ab.Preds) != 1 {
+					continue
+				}
+				iff, ok := ab.Preds[0].Instrs[len(ab.Preds[0].Instrs)-1].(*ssa.If)
+				if !ok || ab.Preds[0].Succs[0] != ab {
+					continue
+				}
+				bo, ok := iff.Cond.(*ssa.BinOp)
+				if !ok || bo.Op.String() != ">" {
+					continue
+				}
+				if cst, ok := bo.Y.(*ssa.Const); !ok || cst.Value == nil || cst.Float64() != 0 {
+					continue
+				}
+				el, ok := bo.X.(*ssa.UnOp)
+				if !ok {
+					continue
+				}
+				ia, ok := el.X.(*ssa.IndexAddr)
+				if !ok || !isRaw(ia.X) {
+					continue
+				}
+				S = phi
+				for _, in2 := range phi.Block().Instrs {
+					p2, ok := in2.(*ssa.Phi)
+					if !ok || p2 == phi {
+						continue
+					}
+					for _, e2 := range p2.Edges {
+						if inc, ok := e2.(*ssa.BinOp); ok && inc.Op.String() == "+" && inc.X == ssa.Value(p2) && inc.Block() == ab {
+							if cst, ok := inc.Y.(*ssa.Const); ok && cst.Int64() == 1 {
+								C = p2
+							}
+						}
+					}
+				}
+			}
+		}
+	}
+	return S, C
 }
